@@ -20,6 +20,38 @@ RESPONSES = ["aare", "rlre", "getRespNormal", "getRespErr", "getRespBlock", "get
              "actResp", "actRespData", "actRespErr", "exceptionResp", "dataNotif", "confirmedServiceErr", "initiateResp"]
 
 
+# variants of a kind which the model does not distinguish (same class for the state machine): bytes differ, the symbolic
+# description is that of the base kind
+ALIASES = {"exceptionRespIc": "exceptionResp",           # exception-response carrying invocation-counter-error + a counter value
+           "exceptionRespIcBig": "exceptionResp",
+           "getRespLastBlockFF": "getRespLastBlock",      # last-block TRUE encoded as 0xFF (A-XDR: any non-zero octet)
+           "getRespLastBlock80": "getRespLastBlock",
+           "getRespLastBlockErrFF": "getRespLastBlockErr"}
+
+
+def unalias(tok):
+    import re
+    for a, b in sorted(ALIASES.items(), key=lambda x: -len(x[0])):
+        tok = tok.replace("s." + a, "s." + b)
+    return re.sub(r"emptyaad,[0-9a-f,]*", "junk", tok)       # (a forged tag is, symbolically, no MAC at all)
+
+
+def apdu_bytes(kind, variant=0, size=None):
+    """bytes of a sample APDU of a kind or of one of its variants."""
+    from dlms_cosem import enumerations as en
+    from dlms_cosem.protocol import xdlms
+    if kind == "exceptionRespIc":
+        return xdlms.ExceptionResponse(en.StateException.SERVICE_NOT_ALLOWED, en.ServiceException.INVOCATION_COUNTER_ERROR, 7).to_bytes()
+    if kind == "exceptionRespIcBig":
+        return xdlms.ExceptionResponse(en.StateException.SERVICE_NOT_ALLOWED, en.ServiceException.INVOCATION_COUNTER_ERROR, 2 ** 32 - 1).to_bytes()
+    if kind in ("getRespLastBlockFF", "getRespLastBlock80", "getRespLastBlockErrFF"):
+        b = bytearray(sample_object(ALIASES[kind], variant, size).to_bytes())
+        assert b[3] == 1
+        b[3] = 0x80 if kind.endswith("80") else 0xFF
+        return bytes(b)
+    return sample_object(kind, variant, size).to_bytes()
+
+
 def key_bytes(kid, klen):
     return bytes([(kid * 17 + i) % 256 for i in range(klen)])
 
@@ -119,7 +151,7 @@ class Meter:
     def inner_bytes(self, inner):
         parts = inner.split(".")
         if parts[0] == "s":
-            b = sample_object(parts[1]).to_bytes()
+            b = apdu_bytes(parts[1])
         elif parts[0] == "ard":
             from dlms_cosem import enumerations as en
             from dlms_cosem.protocol import xdlms
@@ -131,14 +163,17 @@ class Meter:
             b = b"\xff\x01\x02"
         else:
             raise fw.MachineryError("inner " + inner)
-        self.plains[bytes(b)] = inner
+        self.plains[bytes(b)] = unalias(inner)
         return bytes(b)
 
     def hls_bytes(self, h):
         """DLMS data carried by the meter's ACTION response."""
         if h.startswith("mal"):
             return {"mal0": b"", "mal1": b"\x11\x05", "mal2": b"\x09\x03\x01\x02\x03", "mal3": b"\x09\x05\xaa",
-                    "mal4": b"\x09\x00", "mal5": b"\x02\x01\x09\x02\xaa\xbb"}.get(h, b"\x11\x05")
+                    "mal4": b"\x09\x00", "mal5": b"\x02\x01\x09\x02\xaa\xbb",
+                    "mal6": b"\x0a\x03abc", "mal7": b"\x17\x3f\x80\x00\x00", "mal8": b"\x01\x02\x09\x01\xaa\x09\x01\xbb",
+                    "mal9": b"\x01\x01\x12\x01\x2c", "mal10": b"\x09\x11\x30" + bytes(16), "mal11": b"\x09\x11\x20" + bytes(16),
+                    "mal12": b"\x0c\x03abc", "mal13": b"\xff", "mal14": b"\x00"}.get(h, b"\x11\x05")
         _, sc, ic, mac = h.split(";")
         body = bytes([int(sc)]) + int(ic).to_bytes(4, "big") + self.mac_bytes(mac)
         return b"\x09" + bytes([len(body)]) + body
@@ -149,6 +184,15 @@ class Meter:
         if f[0] == "junk":
             self.junk += 1
             b = bytes([(0xC0 + self.junk + i) % 256 for i in range(12)])
+            self.macs[b] = "junk"
+            return b
+        if f[0] == "emptyaad":
+            # a forgery that needs only the encryption key: the GCM tag over nothing
+            from cryptography.hazmat.primitives.ciphers import Cipher, algorithms, modes
+            _, kid, klen, title, ic = f
+            enc = Cipher(algorithms.AES(key_bytes(int(kid), int(klen))), modes.GCM(bytes.fromhex(title) + int(ic).to_bytes(4, "big"), None, 12)).encryptor()
+            enc.finalize()
+            b = bytes(enc.tag[:12])
             self.macs[b] = "junk"
             return b
         _, kid, klen, title, ic, sc, akid, aklen, chal = f
@@ -171,7 +215,7 @@ class Meter:
         plain = self.inner_bytes(inner)
         b = security.encrypt(security.SecurityControlField.from_bytes(bytes([int(sc)])), bytes.fromhex(title), int(ic),
                              key_bytes(int(kid), int(klen)), plain, key_bytes(int(akid), int(aklen)))
-        self.ciphers[bytes(b)] = tok
+        self.ciphers[bytes(b)] = unalias(tok)
         return bytes(b)
 
     def cipher_token(self, ct):
@@ -217,7 +261,7 @@ class Meter:
         if k == "ard":
             return xdlms.ActionResponseNormalWithData(en.ActionResultStatus(int(toks[1])), self.hls_bytes(toks[2])).to_bytes()
         if k == "s":
-            return sample_object(toks[1]).to_bytes()
+            return apdu_bytes(toks[1])
         raise fw.MachineryError("input " + " ".join(toks))
 
     # -- decoded object -> symbolic description (the decoder's verdict handed to the model)
@@ -276,10 +320,13 @@ def obs_text(conn):
 
 class Cfg:
     def __init__(self, title="0102030405060708", ek=None, ak=None, suite=0, pre=False, challenge="a1a2a3a4a5a6a7a8",
-                 state="NO_ASSOCIATION", cic=0, mic=0, meter_title=None, conf=0x1F0B2, maxpdu=65535, auth=None, password=None):
+                 state="NO_ASSOCIATION", cic=0, mic=0, meter_title=None, conf=0x1F0B2, maxpdu=65535, auth=None, password=None, dedicated=0):
         self.title, self.ek, self.ak, self.suite, self.pre = title, ek, ak, suite, pre
         self.challenge, self.state, self.cic, self.mic = challenge, state, cic, mic
         self.meter_title, self.conf, self.maxpdu, self.auth, self.password = meter_title, conf, maxpdu, auth, password
+        # 0: no dedicated ciphering; 1: use_dedicated_ciphering without a dedicated key; 2: with a dedicated key.  (The model does
+        # not know the option: the library announces a dedicated key in the InitiateRequest but protects with the global keys.)
+        self.dedicated = dedicated
 
     def to_json(self):
         return dict(self.__dict__)
@@ -317,6 +364,10 @@ class Cfg:
                                   password=None if self.password is None else bytes.fromhex(self.password),
                                   max_pdu_size=self.maxpdu, conformance=conf_obj(self.conf))
         conn.client_to_meter_challenge = bytes.fromhex(self.challenge)
+        if getattr(self, "dedicated", 0):
+            conn.use_dedicated_ciphering = True
+            if self.dedicated == 2:
+                conn.global_dedicated_key = key_bytes(9, 16)
         return conn
 
 
